@@ -39,7 +39,7 @@ structure Shape where
 deriving DecidableEq, Repr, Inhabited
 
 /-- `frequency >= acceptance_threshold` with `frequency = n / N` and threshold `a / b` -/
-def passes (cfg : Config) (N n : Nat) : Bool := decide (n * cfg.thDen ≥ cfg.thNum * N)
+def passes (cfg : Config) (N n : Nat) : Bool := Gen.threshold_keeps n N cfg.thNum cfg.thDen
 
 /-- candidates of one direction, in dictionary order -/
 def candidates (cfg : Config) (N : Nat) (inv : Bool) (pp : PropProfile) : List Stmt :=
@@ -103,9 +103,8 @@ def isNodeType (ty : String) : Bool :=
 def isShapeType (ty : String) : Bool :=
   !(ty == Gen.IRI_ELEM_TYPE) && !(ty == Gen.BNODE_ELEM_TYPE)
 
-/-- `_most_general_cardinality` -/
-def mostGeneral (a b : Card) : Card :=
-  if a == Card.plus || b == Card.plus || a != b then Card.plus else a
+/-- `_most_general_cardinality` (generated from the AST) -/
+def mostGeneral (a b : Card) : Card := Gen.most_general_cardinality a b
 
 /-- `MergeableConstraints.merge_group` for a group of ≥ 2 node-kind statements of one property -/
 def mergeGroup (cfg : Config) (g : List Stmt) : Stmt :=
@@ -172,16 +171,13 @@ def selectValid (cfg : Config) (l : List Stmt) : List Stmt := groupNode cfg (gro
 
 /-- `_change_statement_cardinality_to_all_compliant` (applied when `probability != 1`) -/
 def relax (cfg : Config) (N : Nat) (s : Stmt) : Stmt :=
-  if s.n != N then
+  if Gen.relax_trigger s.n N then
     { s with comments := commentOf s :: s.comments,
-             card := if cfg.allowOpt && s.card == Card.exact 1 then Card.opt else Card.star }
+             card := Gen.relax_cardinality cfg.allowOpt s.card }
   else s
 
 /-- `_generalize_exact_cardinalities` -/
-def generalize (s : Stmt) : Stmt :=
-  match s.card with
-  | Card.exact k => if k > 1 then { s with card := Card.plus } else s
-  | _ => s
+def generalize (s : Stmt) : Stmt := { s with card := Gen.generalize_cardinality s.card }
 
 /-- `_tune_list_of_valid_statements` -/
 def tune (cfg : Config) (N : Nat) (l : List Stmt) : List Stmt :=
